@@ -166,6 +166,21 @@ func verifyFunction(P *Program, db *SpecDB, R *Resolver, fs *FuncSpec, fn *ssa.F
 		}
 		reach = tAnd(plain...)
 	}
+	for _, w := range fs.Witness {
+		func() {
+			defer func() {
+				if r := recover(); r != nil {
+					if _, ok := r.(unsupported); !ok {
+						panic(r)
+					}
+				}
+			}()
+			v, _ := ctx.eval(w.E)
+			if t, ok := v.(Term); ok {
+				res.interest = append(res.interest, interestTerm{w.Label, t})
+			}
+		}()
+	}
 	reach = e.defineAlways("entry", reach)
 	res.entryReach = reach
 	f.run(reach, args, frees, st)
